@@ -110,7 +110,9 @@ Definition psd_sched_parked : list psd_ev :=
   [PsdStart PsdTimer; PsdStep PsdTimer; PsdStep PsdTimer; PsdChange; PsdStart PsdShut] ++ repeat (PsdStep PsdShut) 8.
 Definition psd_sched_late : list psd_ev :=
   [PsdChange; PsdStart PsdShut; PsdStep PsdShut; PsdStep PsdShut; PsdStart PsdTimer; PsdStep PsdTimer; PsdStep PsdTimer;
-   PsdStep PsdShut; PsdStep PsdShut].
+   PsdStep PsdShut; PsdStep PsdShut] ++ repeat (PsdStep PsdShut) 4.
+(* free: no periodic dump around *)
+Definition psd_sched_free : list psd_ev := [PsdChange; PsdStart PsdShut] ++ repeat (PsdStep PsdShut) 8.
 (* what the tie observes when the shutdown dump has returned: did it throw; do the files lack the change (version 1) *)
 Definition psd_observe (skip : bool) (sched : list psd_ev) : bool * bool :=
   let st := psd_run skip sched psd_st0 in (pdt_threw (pds_shut st), psd_stale 1 st).
